@@ -284,9 +284,13 @@ class Exec:
         if k == "tuple":
             return L.sbox(self.tuple_seq(sv))
         if k == "py" and isinstance(sv.py, str):
-            return L.sentinel("str_" + sv.py)
+            c = L.sentinel("str_" + sv.py)
+            self.extra_axioms.append(L.strlen(c) == len(sv.py))
+            return c
         if k == "py" and sv.py is None:
             return L.None_
+        if k == "py" and isinstance(sv.py, tuple) and sv.py[0] in ("class", "attr"):
+            return L.sentinel("class_" + str(sv.py[-1]))
         raise OutOfSubset(f"cannot box {sv}")
 
     def tuple_seq(self, sv):
@@ -427,7 +431,7 @@ class Exec:
                 return self.hget(st, "$seq", self.hget(st, fld, sv.t))
             if h in ("set", "frozenset") or (h in CLASSES and CLASSES[h].isa == "set"):
                 return self.set_order(self.hget(st, "$set", sv.t))
-            if h == "tupleval" or h is None or h == "iterable":
+            if h == "tupleval" or h is None or h in ("iterable", "sentinel", "none", "notimpl"):
                 # an immutable tuple value stored as V
                 return L.sunbox(sv.t)
         if sv.kind == "set":
@@ -495,7 +499,7 @@ class Mode:
         return Mode(self.spec, self.old, None, self.result, binds, True)
 
 
-PURE_BUILTINS = {"getattr", "len", "isinstance", "id", "hasattr", "bool", "tuple", "frozenset", "min", "max", "abs", "callable", "type", "iter", "int"}
+PURE_BUILTINS = {"hex", "getattr", "len", "isinstance", "id", "hasattr", "bool", "tuple", "frozenset", "min", "max", "abs", "callable", "type", "iter", "int"}
 SPEC_FUNCS = {"called", "listof", "intof", "after", "values", "entry", "implies", "old", "call", "call2", "all", "any", "no_dups", "seq", "setof", "filt", "addall", "cat", "forall", "exists",
               "is_tuple", "ite", "fresh", "contents", "keys", "dget", "dhas", "rng", "idof", "rev", "prefix", "isinst", "truth",
               "subseq_of", "perm", "count", "sorted_by", "index", "pair", "slice_adj", "typeis", "allocated", "ghost"}
@@ -802,10 +806,16 @@ def _patch_engine():
         raise OutOfSubset("comparison op")
     E.compare = compare
 
+    def is_str(self, sv):
+        return (sv.kind == "py" and isinstance(sv.py, str)) or (sv.kind == "v" and sv.hint == "str")
+    E.is_str = is_str
+
     def pev_BinOp(self, node, st, m):
         a = self.pev(node.left, st, m)
         b = self.pev(node.right, st, m)
         op = node.op
+        if isinstance(op, ast.Add) and self.is_str(a) and self.is_str(b):
+            return SV("v", L.sconcat(self.to_v(a), self.to_v(b)), "str")
         if isinstance(op, ast.Add) and (a.kind in ("seq", "tuple") or b.kind in ("seq", "tuple") or (m.spec and self.is_listlike(a))):
             return SV("seq", L.cat(self.as_seq(a, st), self.as_seq(b, st)))
         if m.spec and self.is_setlike(a) and self.is_setlike(b):
@@ -867,8 +877,19 @@ def _patch_engine():
     E.clamp_slice = clamp_slice
 
     def pev_Subscript(self, node, st, m):
-        base = self.pev(node.value, st, m)
         sl = node.slice
+        # hex(n)[2:]  -> the hex digits of n
+        if (isinstance(node.value, ast.Call) and isinstance(node.value.func, ast.Name) and node.value.func.id == "hex" and isinstance(sl, ast.Slice)
+                and isinstance(sl.lower, ast.Constant) and sl.lower.value == 2 and sl.upper is None):
+            n = self.as_int(self.pev(node.value.args[0], st, m))
+            return SV("v", L.hexstr(n), "str")
+        base = self.pev(node.value, st, m)
+        if self.is_str(base) and isinstance(sl, ast.Slice) and sl.step is None:
+            n = L.strlen(self.to_v(base))
+            lo = self.as_int(self.pev(sl.lower, st, m)) if sl.lower is not None else None
+            hi = self.as_int(self.pev(sl.upper, st, m)) if sl.upper is not None else None
+            a_, b_ = self.clamp_slice(lo, hi, n)
+            return SV("v", L.sslice(self.to_v(base), a_, b_), "str")
         if isinstance(sl, ast.Slice):
             if sl.step is not None:
                 raise OutOfSubset("extended slice read")
@@ -1020,6 +1041,10 @@ def _patch_engine():
     # builtins (pure)
     def sf_len(self, node, st, m):
         a = self.pev(node.args[0], st, m)
+        if a.kind == "py" and isinstance(a.py, str):
+            return sv_int(len(a.py))
+        if a.kind == "v" and a.hint == "str":
+            return sv_int(L.strlen(a.t))
         if a.kind == "tuple":
             return sv_int(len(a.items))
         if a.kind == "v" and a.hint == "dict":
@@ -1118,6 +1143,10 @@ def _patch_engine():
         self.assumptions.add(f"getattr(obj, {nm.py!r}, default) is a pure lookup of a class attribute that does not change during the call")
         return SV("v", f(self.to_v(x)), None)
     E.sf_getattr = sf_getattr
+
+    def sf_hex(self, node, st, m):
+        raise OutOfSubset("hex(n) is only modelled in the form hex(n)[2:]")
+    E.sf_hex = sf_hex
 
     def sf_min(self, node, st, m):
         a, b = [self.as_int(self.pev(x, st, m)) for x in node.args]
